@@ -8,14 +8,15 @@ from harness.adapters import memo as A
 
 
 def _st(s):
-    return {'dver': s['dver'], 'shape': s['shape'], 'pver': {str(k): v for k, v in s['pver'].items()}, 'linked': s['linked']}
+    return {'dver': s['dver'], 'shape': s['shape'], 'pver': {str(k): v for k, v in s['pver'].items()}, 'linked': s['linked'],
+            'vs': {'log': s['vs']['log'], 'nbin': s['vs']['nbin']}}
 
 
 def _base(state_lists):
     out = []
     for sl in state_lists:
         steps = [{'act': to_json(s['act']), 'st': _st(s)} for s in sl[1:]]
-        if steps and steps[0]['act']['op'] == 'Setup' and any(x['act']['op'] == 'Evaluate' for x in steps):
+        if steps and steps[0]['act']['op'] == 'Setup' and steps[-1]['act']['op'] == 'Evaluate':
             out.append(steps)
     return out
 
@@ -41,8 +42,11 @@ def run(ctx):
         ctx.add_tlc('E0+E1 generation ' + gcfg, res, gcfg)
         base = _base([[g.state(n) for n in p] for p in g.behaviours()])
         del g
-    items = _expand(base, ctx.seed, 2 if quick else 6)
-    ctx.check_ops(gcfg, items, ['Setup', 'Evaluate', 'UpdateComponents', 'UpdateFromData', 'MutateLeaf', 'AddLink', 'RemoveLink'])
+    items = _expand(base, ctx.seed, 1 if quick else 4)
+    if quick:
+        # a third of the histories per run, chosen by the seed (the thorough tier replays all of them, 4 kind assignments each)
+        items = [it for k, it in enumerate(items) if (k + ctx.seed) % 3 == 0]
+    ctx.check_ops(gcfg, items, ['Setup', 'Evaluate', 'UpdateComponents', 'UpdateFromData', 'MutateLeaf', 'SetLink', 'SetViewer'])
     used = set()
     for it in items:
         used.update(it['kinds'].values())
@@ -62,7 +66,7 @@ def run(ctx):
         for d in r['div']:
             ctx.report(core.Divergence.from_json(d))
     ctx.sample({'kinds': items[len(items) // 2]['kinds'], 'acts': [s['act'] for s in items[len(items) // 2]['steps']]})
-    ctx.cov['exhaustive'] = True
+    ctx.cov['exhaustive'] = not quick
     ctx.cov['rule'] = ('every interleaving of evaluations and mutations in the bound x leaf kinds assigned round-robin; non-trivial = '
                        'distinct histories with an evaluation, a later mutation and a final evaluation')
     ctx.assume('the oracle is a freshly built, never evaluated copy of the same abstract state (new Data, new selection objects)')
